@@ -65,12 +65,29 @@ impl Spawner {
     }
     /// `quiet`: discard the worker's stderr (self-test workers die on purpose).
     fn spawn_with(&self, journal: &Path, quiet: bool) -> Proc {
+        match self.try_spawn(journal, quiet, &self.digest.to_string()) {
+            Ok((p, _)) => p,
+            Err(e) => die(&format!("worker did not start: {e}")),
+        }
+    }
+    /// A worker without the seed list (single probes only): starts in
+    /// milliseconds, which matters when every successful probe kills it.
+    fn spawn_probe_only(&self, journal: &Path) -> Proc {
+        match self.try_spawn(journal, true, "0") {
+            Ok((p, _)) => p,
+            Err(e) => die(&format!("probe worker did not start: {e}")),
+        }
+    }
+    /// `digest_arg`: the seed-list digest the worker must reproduce, `0` for a
+    /// probe-only worker, `any` to have it build the list and report the
+    /// digest. `Err` = how the worker ended before announcing READY.
+    fn try_spawn(&self, journal: &Path, quiet: bool, digest_arg: &str) -> Result<(Proc, u64), String> {
         std::fs::write(journal, J_IDLE.to_le_bytes()).unwrap_or_else(|e| die(&format!("cannot write journal {journal:?}: {e}")));
         let mut child = Command::new(&self.exe)
             .arg("--c09-worker")
             .arg(self.tier)
             .arg(journal)
-            .arg(self.digest.to_string())
+            .arg(digest_arg)
             .stdin(Stdio::piped())
             .stdout(Stdio::piped())
             .stderr(if quiet { Stdio::null() } else { Stdio::inherit() })
@@ -79,11 +96,19 @@ impl Spawner {
         let stdin = child.stdin.take().unwrap();
         let mut stdout = BufReader::new(child.stdout.take().unwrap());
         let mut line = String::new();
-        if stdout.read_line(&mut line).is_err() || line.trim() != "READY" {
-            let st = child.wait();
-            die(&format!("worker did not start: {line:?} {st:?}"));
+        let _ = stdout.read_line(&mut line);
+        match line.trim().strip_prefix("READY ").and_then(|d| d.parse::<u64>().ok()) {
+            Some(d) => Ok((Proc { child, stdin, stdout }, d)),
+            None => {
+                drop(stdin);
+                let st = child.wait().map_err(|e| format!("wait: {e}"))?;
+                Err(match (st.signal(), st.code()) {
+                    (Some(s), _) => signal_name(s),
+                    (None, Some(c)) => format!("exit{c} {line:?}"),
+                    _ => "unknown".into(),
+                })
+            }
         }
-        Proc { child, stdin, stdout }
     }
 }
 
@@ -372,10 +397,14 @@ struct Prober<'a> {
 impl Prober<'_> {
     /// `Ok(outcome json)` or `Err(signal)` when the probe killed the worker.
     fn probe(&mut self, entry: usize, input: &[u8]) -> Result<Value, String> {
+        self.probe_with(entry, input, false)
+    }
+    /// `full`: compute the full value digest (samples) instead of the cheap one.
+    fn probe_with(&mut self, entry: usize, input: &[u8], full: bool) -> Result<Value, String> {
         if self.proc.is_none() {
-            self.proc = Some(self.sp.spawn(&self.journal));
+            self.proc = Some(self.sp.spawn_probe_only(&self.journal));
         }
-        let r = request(self.proc.as_mut().unwrap(), &format!("X {entry} {}", hex::encode(input)));
+        let r = request(self.proc.as_mut().unwrap(), &format!("X {entry} -{}{}", hex::encode(input), if full { " full" } else { "" }));
         match r {
             Ok(v) => Ok(v.get("probe").cloned().unwrap_or(Value::Null)),
             Err(sig) => {
@@ -403,13 +432,40 @@ const TIMEOUT_MS: u64 = 120_000;
 pub fn run(ctx: Ctx) -> ! {
     let t0 = Instant::now();
     let tuning = Tuning { thorough: ctx.thorough };
-    let world = Arc::new(World::new(tuning));
-    let digest = seeds::digest(&world.seeds);
     let exe = std::env::current_exe().unwrap_or_else(|e| die(&format!("current_exe: {e}")));
-    let spawner = Spawner { exe, tier: ctx.tier(), digest };
     let scratch = std::env::temp_dir().join(format!("mc-decoders-c09-{}", std::process::id()));
     std::fs::create_dir_all(&scratch).unwrap_or_else(|e| die(&format!("scratch dir: {e}")));
     let _ = SCRATCH.set(scratch.clone());
+    // Pre-flight: building the seed list decodes unfaulted artefacts (message
+    // round trips, validation of the hand-written seeds). A worker does it
+    // first, so that a decoder that aborts on a GOOD input is reported instead
+    // of taking this process down.
+    let mut spawner = Spawner { exe, tier: ctx.tier(), digest: 0 };
+    let pre_digest = match spawner.try_spawn(&scratch.join("journal-preflight"), false, "any") {
+        Ok((mut p, d)) => {
+            let _ = writeln!(p.stdin, "Q");
+            let _ = p.stdin.flush();
+            let _ = p.child.wait();
+            d
+        }
+        Err(how) if how.starts_with("SIG") || how.starts_with("signal") => {
+            let _ = std::fs::remove_dir_all(&scratch);
+            ctx.violation(
+                format!("abort:{how}:unfaulted-seeds"),
+                format!("a worker was killed by {how} while building the seed list, i.e. while decoding unfaulted artefacts / round-tripping the enumerated messages"),
+                json!({"phase": "seed-list construction in a worker subprocess"}),
+            );
+            ctx.finish(Level::FaultEnumeration, mc_core::cov! {"evaluations" => 0, "distinct_nontrivial" => 0, "rule" => "sweep not started", "samples" => Vec::<Value>::new()}, &[])
+        }
+        Err(how) => die(&format!("pre-flight worker failed: {how}")),
+    };
+    let world = Arc::new(World::new(tuning));
+    let digest = seeds::digest(&world.seeds);
+    if digest != pre_digest {
+        die(&format!("seed list is not deterministic: {digest} here, {pre_digest} in the pre-flight worker"));
+    }
+    spawner.digest = digest;
+    let spawner = spawner;
 
     if let Some(path) = ctx.replay.clone() {
         replay(&ctx, &world, &spawner, &scratch, &path);
